@@ -328,6 +328,65 @@ def values_clean(seed, nops=16, family=None):
     return '\n'.join(lines) + '\n', dict(last_value={('%d' % h, t): str(v) for (h, t), v in last_value.items()}, types=types, causal=causal)
 
 
+def values_inframe(seed, nops=18):
+    """C02 / C03 with writes made by application systems in the MIDDLE of a frame (Commands::insert at
+    the scheduler-chosen position of one of three application systems) mixed with writes between
+    frames; writers of one key separated by a drain; a late client joins at a random moment while the
+    others keep writing. At most one in-frame write per peer is pending at any time, so the order
+    written is the order of the script."""
+    r = random.Random(seed)
+    n = r.choice([2, 3, 3, 4])
+    types = sorted(r.sample([0, 1, 2, 4, 5, 6], r.randint(1, 3)))
+    lines = _header(r, n, types)
+    late = n - 1 if n > 2 or r.random() < 0.5 else None
+    for p in range(n):
+        if p != late:
+            lines.append('OP %d setup' % p)
+    lines.append('ROUND %d' % r.randint(6, 9))
+    peers = [p for p in range(n) if p != late]
+    everybody = list(peers)
+    ents, val, last_writer, last_value = [], 10, {}, {}
+    for h in range(1, r.randint(2, 4) + 1):
+        p = r.choice(peers)
+        t = r.choice(types)
+        val += 1
+        lines.append('OP %d spawn %d 1 %d:%d' % (p, h, t, val))
+        last_writer[(h, t)] = p
+        last_value[(h, t)] = val
+        ents.append(h)
+    lines.append('DRAIN 60')
+    when = r.randint(0, nops - 2)
+    for i in range(nops):
+        if late is not None and i == when:
+            lines.append('OP %d setup' % late)
+            everybody.append(late)
+        h, t, p = r.choice(ents), r.choice(types), r.choice(peers)
+        if (h, t) in last_writer and last_writer[(h, t)] != p:
+            lines.append('DRAIN 60')
+        burst = r.randint(1, 3)
+        for _ in range(burst):
+            val += 1
+            if r.random() < 0.6:
+                lines.append('OP %d appcmd %d insert %d %d %d' % (p, r.randint(0, 2), h, t, val))
+                # other peers may run in between; the writer's frame applies the write
+                for q in r.sample(everybody, r.randint(0, len(everybody))):
+                    if q != p:
+                        lines.append('FRAME %d 1' % q)
+                lines.append('FRAME %d 1' % p)
+            else:
+                lines.append('OP %d write %d %d %d' % (p, h, t, val))
+                if r.random() < 0.6:
+                    lines.append('FRAME %d 1' % p)
+            last_writer[(h, t)] = p
+            last_value[(h, t)] = val
+        if r.random() < 0.7:
+            _pace(r, lines, everybody)
+    if late is not None and when >= nops:
+        lines.append('OP %d setup' % late)
+    lines.append('DRAIN 80')
+    return '\n'.join(lines) + '\n', dict(types=types, last_writer=last_writer, last_value={(str(h), t): str(v) for (h, t), v in last_value.items()}, causal=[])
+
+
 def single_writer(seed, nops=14):
     """C10: one peer alone writes one key (bursts, pauses); the others write other entities."""
     r = random.Random(seed)
